@@ -414,3 +414,27 @@ def standard_proof_stage(chk, prop_module, theorems, extra_targets=None):
         chk.oblige(t, closed)
         allok = allok and closed
     return allok and not bad, out
+
+
+def coqchk(prop_module, timeout=3000):
+    """Re-check the compiled closure of Properties/<module> with coqchk and
+    report the axioms it depends on. Cached by the hash of the closure's
+    sources. Returns (ok, summary)."""
+    closure = coq_closure("Properties/%s.v" % prop_module)
+    key = file_hash([os.path.join(COQ, f) for f in closure])
+    d = os.path.join(BUILD, "coqchk")
+    os.makedirs(d, exist_ok=True)
+    path = os.path.join(d, "%s-%s.txt" % (prop_module, key))
+    if os.path.exists(path):
+        out = open(path).read()
+    else:
+        with lock("coq"):
+            try:
+                rc, out = sh(["timeout", str(timeout), "coqchk", "-silent", "-o", "-Q", ".", "Sessions", "Sessions.Properties." + prop_module], cwd=COQ)
+            except subprocess.TimeoutExpired:
+                return False, "coqchk timed out"
+        out = "rc=%d\n%s" % (rc, out)
+        with open(path, "w") as f:
+            f.write(out)
+    ok = out.startswith("rc=0") and "* Axioms: <none>" in out
+    return ok, out[-900:]
